@@ -9,7 +9,6 @@ import (
 	"path/filepath"
 	"strings"
 
-	"github.com/JunNishimura/Goit/internal/file"
 	"github.com/spf13/cobra"
 )
 
@@ -55,35 +54,16 @@ var rmCmd = &cobra.Command{
 
 		// remove file from working tree and index
 		for _, arg := range args {
-			// if the arg is directory
-			if f, err := os.Stat(arg); err == nil && f.IsDir() {
-				// get file paths under directory
-				absPath, err := filepath.Abs(arg)
-				if err != nil {
-					return fmt.Errorf("fail to convert %s to abs path: %w", arg, err)
-				}
-				filePaths, err := file.GetFilePathsUnderDirectory(absPath)
-				if err != nil {
-					return fmt.Errorf("fail to get file paths under directory: %w", err)
-				}
+			cleanedArg := filepath.Clean(arg)
+			cleanedArg = strings.ReplaceAll(cleanedArg, `\`, "/")
 
-				// filePaths are defined as abs paths
-				// so, translate them to rel paths
+			// a tracked directory: exactly the tracked files beneath it (untracked files stay)
+			if client.Idx.IsRegisteredAsDirectory(cleanedArg) {
 				var relPaths []string
-				curPath, err := os.Getwd()
-				if err != nil {
-					return fmt.Errorf("fail to get current directory: %w", err)
-				}
-				for _, filePath := range filePaths {
-					relPath, err := filepath.Rel(curPath, filePath)
-					if err != nil {
-						return fmt.Errorf("fail to get relative path: %w", err)
-					}
-					cleanedRelPath := strings.ReplaceAll(relPath, `\`, "/")
-					relPaths = append(relPaths, cleanedRelPath)
+				for _, entry := range client.Idx.GetEntriesByDirectory(cleanedArg) {
+					relPaths = append(relPaths, string(entry.Path))
 				}
 
-				// remove
 				for _, relPath := range relPaths {
 					// remove from the working tree
 					if err := removeFromWorkingTree(relPath); err != nil {
@@ -96,9 +76,6 @@ var rmCmd = &cobra.Command{
 					}
 				}
 			} else {
-				cleanedArg := filepath.Clean(arg)
-				cleanedArg = strings.ReplaceAll(cleanedArg, `\`, "/")
-
 				// remove from the working tree
 				if err := removeFromWorkingTree(cleanedArg); err != nil {
 					return err
